@@ -37,7 +37,13 @@ def main():
     sh(f'git -C /repo worktree add -q --detach {WT} HEAD')
     try:
         env = dict(os.environ, PYTHONPATH=WT, PYTHONDONTWRITEBYTECODE='1')
-        demo = os.path.join(dst, 'demo.py')
+        # same relative layout the sub-agent worked in: <worktree>/seed/demo.py
+        os.makedirs(os.path.join(WT, 'seed'), exist_ok=True)
+        demo = os.path.join(WT, 'seed', 'demo.py')
+        shutil.copy(os.path.join(dst, 'demo.py'), demo)
+        src_tree = os.path.dirname(os.path.abspath(src.rstrip('/')))
+        txt = open(demo).read().replace(src_tree, WT)     # absolute paths into the agent's own worktree
+        open(demo, 'w').write(txt)
         r0 = subprocess.run(['/venv/bin/python', demo], cwd=WT, env=env, capture_output=True, text=True, timeout=600)
         meta['demo_without_patch_exit'] = r0.returncode
         a = sh(f'git -C {WT} apply {dst}/patch.diff')
